@@ -486,6 +486,45 @@ example : toInt64 (zero true) = 0 ∧ toInt64 half = 0 ∧ toInt64 F64.nan = min
     evalF64 (ascii "1 >> x") 0xBFE0000000000000 = some one.bits := by
   decide +kernel
 
+/-- **The integer operators work on truncated operands.**  For finite operands whose truncations toward
+    zero `a`, `b` fit int64, `% & | << >>` are Go's int64 operations on `a` and `b` (truncated
+    remainder; two's-complement and/or; shifts with counts ≥ 64 giving 0 or the sign fill), converted
+    back with one rounding (`float64(…)`); the guards give NaN.  Every other operand (NaN, ±Inf, beyond
+    int64) is first replaced by MinInt64, as `int64(x)` compiled for amd64 does. -/
+theorem int_ops_truncate (L : Libm) (x y : F64) (hx : x.isFinite = true) (hy : y.isFinite = true)
+    (hxr : minInt64 ≤ truncRat x.toRat ∧ truncRat x.toRat ≤ maxInt64)
+    (hyr : minInt64 ≤ truncRat y.toRat ∧ truncRat y.toRat ≤ maxInt64) :
+    (arith L).bin [37] x y = (if truncRat y.toRat = 0 then F64.nan
+      else ofInt (Int.tmod (truncRat x.toRat) (truncRat y.toRat))) ∧
+    (arith L).bin [38] x y = ofInt (wrap64 (Nat.land (toU64 (truncRat x.toRat)) (toU64 (truncRat y.toRat)))) ∧
+    (arith L).bin [124] x y = ofInt (wrap64 (Nat.lor (toU64 (truncRat x.toRat)) (toU64 (truncRat y.toRat)))) ∧
+    (arith L).bin [60, 60] x y = (if truncRat y.toRat < 0 then F64.nan
+      else ofInt (if truncRat y.toRat ≥ 64 then 0 else wrap64 (truncRat x.toRat * 2 ^ (truncRat y.toRat).toNat))) ∧
+    (arith L).bin [62, 62] x y = (if truncRat y.toRat < 0 then F64.nan
+      else ofInt (if truncRat y.toRat ≥ 64 then (if truncRat x.toRat < 0 then -1 else 0)
+        else truncRat x.toRat / 2 ^ (truncRat y.toRat).toNat)) ∧
+    (∀ z : F64, z.isFinite = false → toInt64 z = minInt64) := by
+  have tx := toInt64_trunc hx hxr.1 hxr.2
+  have ty := toInt64_trunc hy hyr.1 hyr.2
+  refine ⟨?_, ?_, ?_, ?_, ?_, fun z hz => toInt64_not_finite hz⟩
+  · rw [bin_mod]; unfold intBinF modI; rw [tx, ty]
+    by_cases h : truncRat y.toRat = 0 <;> simp [h]
+  · rw [bin_and]; unfold intBinF andI; rw [tx, ty]
+  · rw [bin_or]; unfold intBinF orI; rw [tx, ty]
+  · rw [bin_shl]; unfold intBinF shlI; rw [tx, ty]
+    by_cases h : truncRat y.toRat < 0 <;> simp [h]
+  · rw [bin_shr]; unfold intBinF shrI; rw [tx, ty]
+    by_cases h : truncRat y.toRat < 0 <;> simp [h]
+
+/-- `7.9 % 2.9` = 7 % 2 = 1, `-7.9 % 2` = -1 (truncated, sign of the dividend), `6.7 & 3.2` = 2, `1 << 62.9`
+    = 2^62, `1 << 63` = MinInt64 as a float (-2^63), `1 << 64` = 0, `-8 >> 1.5` = -4, `-1 >> 100` = -1,
+    `1e19 | 1` = MinInt64|1 (1e19 is beyond int64). -/
+example : evalF64 (ascii "7.9 % 2.9") 0 = some one.bits ∧ evalF64 (ascii "-7.9 % 2") 0 = some (ofInt (-1)).bits ∧
+    evalF64 (ascii "6.7 & 3.2") 0 = some (ofInt 2).bits ∧ evalF64 (ascii "1 << 62.9") 0 = some (ofInt (2 ^ 62)).bits ∧
+    evalF64 (ascii "1 << 63") 0 = some (ofInt (-(2 ^ 63))).bits ∧ evalF64 (ascii "1 << 64") 0 = some 0 ∧
+    evalF64 (ascii "-8 >> 1.5") 0 = some (ofInt (-4)).bits ∧ evalF64 (ascii "-1 >> 100") 0 = some (ofInt (-1)).bits ∧
+    evalF64 (ascii "1e19 | 1") 0 = some (ofInt (minInt64 + 1)).bits := by decide +kernel
+
 /-- **Integer formulas are exact.**  Take a compiled formula whose parse tree has an *integer
     meaning* `n` (`Tree.intEval`, `Spec/C19F64.lean`): leaves are integer literals (decimal, `0x`,
     `0b`, `0o`, read by the integer parser) or variables of an integer binding `ib`, operators are
